@@ -103,6 +103,9 @@ UNITS['c08'] = {
         ('close_pops_nothing', 'self.0.pop();', '', ['C08.env.close']),
         ('open_pushes_nothing', 'self.0.push(Scope::new());', '', ['C08.env.open']),
         ('lookup_reads_outermost_scope', 'let __x9_1_0 = &self.0[__k9_1];', 'let __x9_1_0 = &self.0[0];', ['C08.env.lookup']),
+        ('dependency_edge_reversed', 'self.graph.add_edge(from_idx, to_idx, ());', 'self.graph.add_edge(to_idx, from_idx, ());', ['C09.resolve.builder.connect']),
+        ('declaration_not_opened_in_graph', 'defg.open(External::new(decl.node()));', '', ['C09.resolve.', 'C08.resolve.']),
+        ('builder_close_keeps_current', 'self.current = None;', '', ['C09.resolve.builder.close']),
         ('use_ignores_qualifier', 'let entry = Entry::new(var.ident(), qualifier);', 'let entry = Entry::new(var.ident(), None);', ['C08.resolve.use_']),
         ('duplicate_not_reported', 'if env.declare(entry, defn).is_some() {', 'if env.declare(entry, defn).is_some() && false {', ['C08.resolve.duplicate_declaration_is_error']),
         ('recursion_scope_not_closed', 'close_recursion(env)?;', '', ['C08.resolve.']),
@@ -343,10 +346,12 @@ PROPS = {
                         'eval_declaration (reference / recursion bookkeeping), eval_any dispatcher', 'which of two same-named declarations from two unqualified imports wins is fixed (the later import) but not demanded by the statement'],
     },
     'C09': {
-        'units': ['c01'],
+        'units': ['c01', 'c08'],
         'level': 'other',
         'obligation_prefixes': ['C09.', 'C01.tagpred.is_schema', 'C01.tagpred.is_uri'],
         'scans': [
+            {'name': 'P9.builder_insert', 'kind': 'pinned_text', 'file': 'oal-compiler/src/resolve.rs', 'path': [('impl', 'impl Builder'), ('fn', 'insert')],
+             'why': 'Builder::insert (hash_map Entry API) is under an ASSUMED contract: the node of a definition is found or appended, nothing else changes'},
             {'name': 'P9.compile_calls_cycles_check', 'kind': 'pinned_text', 'file': 'oal-compiler/src/compile.rs', 'path': [('fn', 'compile')],
              'why': 'the glue that runs cycles_check on the graph returned by resolve, after inference and before evaluation, is not under contract'},
         ],
@@ -358,6 +363,8 @@ PROPS = {
                       'so a program whose definition graph has an uncuttable cycle cannot be accepted (contrapositive of (3) plus termination). '
                       'Naming of components, function level: eval_recursion returns a reference to a component named by a hash of (the rec node, the identifier of the scope it is instantiated in), binds the rec variable to exactly that name inside the body and registers the evaluated body under it; '
                       'push_scope gives every scope a fresh identifier (strictly increasing counter). '
+                      'The graph cycles_check runs on is complete (unit c08): resolve returns a dependency graph with exactly one edge (declaration, binder) for every use, inside that declaration, that denotes a node of some module '
+                      '(Builder::{open,close,connect,graph} and the walk of resolve against `lexical_deps`). '
                       'Not decided: eval_declaration (references / recursive declarations evaluated once), that the emitter turns references into $ref + components (see C03 for the closed-components clause), termination of evaluation, and collision-freeness of the hash: level other.',
         'level_note': 'ASSUMED: petgraph StableDiGraph operations as a finite map edge-id -> (source, target) with stable ids (find_edge, node_weight, edges_directed(Incoming) = all edges into the node, remove_edge); '
                       'kosaraju_scc returns a partition of the nodes into classes of mutual reachability (scc_spec, opaque, used through four accessor lemmas); rule R-ghost for the RefCell write `core_mut().is_recursive = true`; '
@@ -368,7 +375,7 @@ PROPS = {
                        '(an uncuttable class may survive a round in which another class was cut); the loop invariant "inbounds empty ==> every class seen so far is trivial" carries it.',
         'assumptions': ['petgraph operations and kosaraju_scc contracts (trusted dependency)', 'tags are final when cycles_check runs (glue pinned)', 'hash naming: equal (node, scope id) give equal names; distinct ones are assumed, not proved, to give distinct names'],
         'not_decided': ['eval_declaration: a reference / recursive declaration is evaluated once and its recursion point becomes Expr::Recursion', 'emitter: Reference -> $ref + component (closedness is C03)', 'termination and finiteness of evaluation',
-                        'two instantiations get different component names (needs collision-freeness of SHA-256 over (scope id, node))', 'recursion through imported modules (graph construction in resolve::Builder is opaque)'],
+                        'two instantiations get different component names (needs collision-freeness of SHA-256 over (scope id, node))', 'that the shim of the graph in unit c08 (weights, edge pairs) and the one in unit c01 (node map, edge map) describe the same petgraph object (composition by reading)'],
     },
     'C17': {
         'units': ['c17'],
